@@ -68,6 +68,21 @@ class C03(Prop):
                         if ay:
                             ratio[s] = abs(ax / ay) * math.exp(rng.gauss(0, 1) * math.hypot(px[s], py[s]))
                 yield {'kind': 'ar-multi', 'cx': cx, 'cy': cy, 'mts': mts, 'px': px, 'py': py, 'ratio': ratio}
+        # many stations with moderately unlikely ratios: the joint log-likelihood lies far below ln(1e-308) although every station
+        # density is an ordinary number
+        for i in range(4 if tier == 'quick' else 40):
+            ns = rng.choice([150, 300])
+            mts = [unit6(rng) for _ in range(2)]
+            cx = [[[v * rng.uniform(0.5, 2) for v in mts[0]]] for _ in range(ns)]
+            cy = [[[v * rng.uniform(0.5, 2) for v in mts[0]]] for _ in range(ns)]
+            px = [0.1] * ns
+            py = [0.1] * ns
+            ratio = []
+            for s_ in range(ns):
+                ax = sum(a * b for a, b in zip(cx[s_][0], mts[0]))
+                ay = sum(a * b for a, b in zip(cy[s_][0], mts[0]))
+                ratio.append(abs(ax / ay) * math.exp(rng.choice([-1, 1]) * 3.0 * math.hypot(0.1, 0.1)))       # three sigma off
+            yield {'kind': 'ar-multi', 'cx': cx, 'cy': cy, 'mts': mts, 'px': px, 'py': py, 'ratio': ratio, 'many': True}
         for i in range(nq):
             mx = 10 ** rng.uniform(-2, 2) * rng.choice([1, -1])
             my = 10 ** rng.uniform(-2, 2) * rng.choice([1, -1])
